@@ -154,17 +154,11 @@ func IgnoreGo(pat string) {}
 
 func Note(k string, v any) {}
 
-var ufTable = map[string]bool{}
-
-// UFBool is an arbitrary but consistent predicate of its arguments.
+// UFBool is an arbitrary but consistent predicate of its arguments. Natively the
+// recorded value of every call is replayed in call order (the solver's model
+// already makes equal arguments give equal values).
 func UFBool(name string, args ...string) bool {
-	key := name + "\x00" + strings.Join(args, "\x00")
-	if v, ok := ufTable[key]; ok {
-		return v
-	}
-	v := next("uf:"+name, "bool").U != 0
-	ufTable[key] = v
-	return v
+	return next("uf:"+name, "bool").U != 0
 }
 
 func UFU64(name string, args ...uint64) uint64 { return next("uf:"+name, "u64").U }
@@ -188,7 +182,6 @@ func HasPrefix(s, p string) bool { return strings.HasPrefix(s, p) }
 // RunNative executes harness h (with optional setup) under the loaded replay
 // and classifies the outcome.
 func RunNative(setup func() any, h func(any), h0 func()) (outcome string) {
-	ufTable = map[string]bool{}
 	defer func() {
 		if r := recover(); r != nil {
 			switch r := r.(type) {
